@@ -285,10 +285,11 @@ pub fn run_property(prop: Property, make_gens: impl FnOnce(&Ctx) -> Vec<Gen<'sta
         }
         std::process::exit(0);
     }
-    let budget = Duration::from_secs(match tier {
+    // sanitizer sub-runs are 4-20x slower: the driver passes a larger watchdog
+    let budget = Duration::from_secs(std::env::var("VERIF_BUDGET_S").ok().and_then(|s| s.parse().ok()).unwrap_or(match tier {
         Tier::Quick => prop.budget_quick_s,
         Tier::Thorough => prop.budget_thorough_s,
-    });
+    }));
     let deadline = Instant::now() + budget;
 
     let mut evaluations: u64 = 0;
